@@ -41,19 +41,22 @@ ASSUMPTIONS = [
 ]
 REQUIRED = {"dim2": 0.2, "dim3": 0.2, "kind-tri": 0.05, "kind-tet": 0.05, "perturbed": 0.1, "affine": 0.03,
             "K-full": 0.15, "K-diag": 0.15, "bc-mixed": 0.3, "bc-all-neu": 0.03, "embedded": 0.1,
+            "scaled-small": 0.08, "scaled-large": 0.05, "graded": 0.01, "K-tiny": 0.1, "K-huge": 0.03,
             "reuse": 0.1, "reuse-moved-geometry": 0.05, "reuse-changed-tensor": 0.03, "reuse-changed-bc": 0.03}
 
 RTOL = 1e-9
-ATOL = 1e-14  # data are O(1): guards against denormal fields produced by shrinking
+ATOL = 1e-250  # far below any generated magnitude (K >= 1e-18, lengths >= 1e-6): only guards against denormal fields produced by shrinking
 
 
 @st.composite
 def _spec(draw, tier):
     grid = draw(grid_spec(dims=(2, 3), poly=False, max_amp=0.15, max_n3=2, max_n=4, gmsh=(tier == "thorough")))
-    s = {"grid": grid, "K": draw(fv.spd_spec()), "bc": draw(fv.bc_spec()), "field": draw(fv.field_spec()), "reuse": None}
+    grid = draw(fv.with_length_scale(grid))  # unit factors 1e-6..1e4, graded tensor grids
+    s = {"grid": grid, "K": draw(fv.spd_spec(mags=True)), "bc": draw(fv.bc_spec()),
+         "field": draw(fv.field_spec(length=grid.get("scale") or 1.0)), "reuse": None}
     # reuse class: one Mpfa object discretises twice, the inputs are edited in place in between (see gen/fv.py)
     if draw(st.integers(0, 3)) == 0:
-        s["reuse"] = draw(fv.reuse_spec(grid))
+        s["reuse"] = draw(fv.reuse_spec(grid, mags=True))
     return s
 
 
@@ -75,7 +78,7 @@ def bc_label(is_dir, g):
     return "bc-mixed"
 
 
-def check_linear_exactness(g, M, Km, fs, is_dir, tag=""):
+def check_linear_exactness(g, M, Km, fs, is_dir, tag="", cf=1.0):
     """flux / bound_flux / bound_pressure_* applied to p = c + a.x against the exact values.
     Shared with C12 (TPFA on K-orthogonal grids; there only the flux part is claimed)."""
     qe = fv.exact_flux(g, Km, fs["a"])
@@ -84,7 +87,7 @@ def check_linear_exactness(g, M, Km, fs, is_dir, tag=""):
     q = M["flux"] @ p + M["bound_flux"] @ bv
     sc = float((fv.abs_apply(M["flux"], p) + fv.abs_apply(M["bound_flux"], bv)).max())
     require(np.all(np.isfinite(q)), tag + "flux-finite", "non-finite flux")
-    require_close(q, qe, tag + "linear-flux", rtol=RTOL, atol=ATOL, scale=max(sc, np.abs(qe).max()),
+    require_close(q, qe, tag + "linear-flux", rtol=RTOL * cf, atol=ATOL, scale=max(sc, np.abs(qe).max()),
                   what="flux*p + bound_flux*bc vs -(K grad p).n_f")
     return p, bv, qe
 
@@ -113,14 +116,15 @@ def check(spec):
     fs = spec["field"]
 
     # (1) exact flux on every face
-    p, bv, _ = check_linear_exactness(g, M, Km, fs, is_dir)
+    cf = fv.conditioning_factor(spec["grid"])  # > 1 only for graded grids (conditioning of the local systems)
+    p, bv, _ = check_linear_exactness(g, M, Km, fs, is_dir, cf=cf)
 
     # (2) exact pressure trace on boundary faces
     bf = g.get_all_boundary_faces()
     pr = M["bound_pressure_cell"] @ p + M["bound_pressure_face"] @ bv
     pe = fv.linear_pressure(fs, g.face_centers)
     sc2 = float((fv.abs_apply(M["bound_pressure_cell"], p) + fv.abs_apply(M["bound_pressure_face"], bv))[bf].max())
-    require_close(pr[bf], pe[bf], "boundary-pressure", rtol=RTOL, atol=ATOL, scale=max(sc2, np.abs(pe[bf]).max()),
+    require_close(pr[bf], pe[bf], "boundary-pressure", rtol=RTOL * cf, atol=ATOL, scale=max(sc2, np.abs(pe[bf]).max()),
                   what="bound_pressure_cell*p + bound_pressure_face*bc vs p(x_f) on boundary faces")
 
     # (3) constant pressure -> zero flux
@@ -129,10 +133,11 @@ def check(spec):
     b0 = np.where(is_dir, c, 0.0)
     q0 = M["flux"] @ p0 + M["bound_flux"] @ b0
     sc0 = float((fv.abs_apply(M["flux"], p0) + fv.abs_apply(M["bound_flux"], b0)).max())
-    require_close(q0, np.zeros_like(q0), "constant-zero-flux", rtol=RTOL, atol=ATOL, scale=sc0,
+    require_close(q0, np.zeros_like(q0), "constant-zero-flux", rtol=RTOL * cf, atol=ATOL, scale=sc0,
                   what="flux of a constant pressure")
 
-    labels = list(meta["labels"]) + ["K-" + ts["kind"], bc_label(is_dir, g)] + reuse_labels
+    labels = (list(meta["labels"]) + ["K-" + ts["kind"], bc_label(is_dir, g)] + reuse_labels
+              + fv.length_labels(spec["grid"]) + fv.tensor_labels(ts))
     gs = spec["grid"]
     non_cart = gs["kind"] not in ("cart", "tensor") or gs.get("pamp", 0) > 0 or bool(gs.get("affine")) or bool(gs.get("rigid"))
     nontrivial = "bc-mixed" in labels and (non_cart or ts["kind"] != "iso")
